@@ -114,7 +114,15 @@ type outcome struct {
 // behind its handshake (100 everywhere except in part of the genuine cases).
 var serverFirst = 100
 
+// hourRollover: the client builds its handshake in the last half second of an
+// hour (of the virtual clock both ends share) and the network takes a second
+// to deliver it, so the server reads it in the next hour.
+var hourRollover = false
+
 func mitmCase(c *mon.Case, r *mon.Run, sf base.ServerFactory, b o4.Bridge, t tamper, chunkIdx int, seed uint64, clientArgsBridge o4.Bridge) (out outcome, applied bool) {
+	if hourRollover {
+		time.Sleep(time.Until(time.Now().Truncate(time.Hour).Add(time.Hour - 400*time.Millisecond)))
+	}
 	cw, sw := memwire.Pair(memwire.Options{Keep: true})
 	c2s, s2c := cw.Out(), sw.Out()
 	s2c.SetPolicy(chunk(chunkIdx, seed))
@@ -177,6 +185,14 @@ func mitmCase(c *mon.Case, r *mon.Run, sf base.ServerFactory, b o4.Bridge, t tam
 			}
 		}
 	})
+	if hourRollover {
+		c2s.Pause(true)
+		wg.Add(1)
+		c.Go(wg.Done, func() {
+			time.Sleep(time.Second)
+			c2s.Pause(false)
+		})
+	}
 	cc, err := o4.DialReal(cw, clientArgsBridge.ClientArgsCert())
 	out.dialErr = err
 	out.dialAt = time.Since(start)
@@ -343,7 +359,7 @@ func TestCheck(t *testing.T) {
 	r := mon.Start(t, "C02")
 	defer r.Finish()
 	r.SpinWatch(memwire.BytesMoved)
-	r.Note("rule", "per bridge: genuine control (must complete, data both ways; the server speaking first with 100, 8192 or 20000 bytes right behind its handshake, under every chunking); man-in-the-middle on a genuine real server's first write: EVERY single bit of representative, AUTH, mark and MAC (768 bits) plus PRNG-sampled padding bits and seed-frame bits, truncation/insertion/deletion inside every field, field offsets found from public data only; impostor servers (reference implementation with the victim's public B and NODEID but another private key; replay of a recorded genuine response; bridge lines whose public key is any of the 14 encodings of a small-order point, served by a peer that computes AUTH with EXP(B,x)=0); clients configured with NODEID or B differing in one bit or random; all under response chunkings {all,1,31,33,63,65,PRNG<=700, a short head then everything, 4096, 8191}; 32 clients handshaking concurrently against one factory under the race detector; ephemeral representatives of all hellos/responses must be pairwise distinct. Non-trivial = a case whose modification was actually applied (or an impostor/misconfiguration/genuine case that ran); distinct = (bridge, class, position, chunking).")
+	r.Note("rule", "per bridge: genuine control (must complete, data both ways; every fifth with the hour changing between the client's hello and the server's reading it; the server speaking first with 100, 8192 or 20000 bytes right behind its handshake, under every chunking); man-in-the-middle on a genuine real server's first write: EVERY single bit of representative, AUTH, mark and MAC (768 bits) plus PRNG-sampled padding bits and seed-frame bits, truncation/insertion/deletion inside every field, field offsets found from public data only; impostor servers (reference implementation with the victim's public B and NODEID but another private key; replay of a recorded genuine response; bridge lines whose public key is any of the 14 encodings of a small-order point, served by a peer that computes AUTH with EXP(B,x)=0); clients configured with NODEID or B differing in one bit or random; all under response chunkings {all,1,31,33,63,65,PRNG<=700, a short head then everything, 4096, 8191}; 32 clients handshaking concurrently against one factory under the race detector; ephemeral representatives of all hellos/responses must be pairwise distinct. Non-trivial = a case whose modification was actually applied (or an impostor/misconfiguration/genuine case that ran); distinct = (bridge, class, position, chunking).")
 	dir := o4.StateDir("c02")
 	nBridges := r.Pick(4, 24)
 	for bi := 0; bi < nBridges; bi++ {
@@ -490,7 +506,13 @@ func TestCheck(t *testing.T) {
 				// the server speaks first: 100 bytes, or a bulk of 8..20 KiB right behind
 				// its handshake (under every chunking of what the client reads)
 				serverFirst = []int{100, 8192, 20000}[(i/len(chunkings))%3]
+				// every fifth: the hour changes between the client's hello and the server's reading it
+				hourRollover = i%5 == 4
 				out, _ := mitmCase(c, r, sf, b, tamper{kind: "none"}, i, r.Sub("gen", bi, i), b)
+				if hourRollover {
+					r.Count("genuine_across_the_top_of_the_hour", 1)
+				}
+				hourRollover = false
 				first := serverFirst
 				serverFirst = 100
 				r.Count("evaluations", 1)
